@@ -218,23 +218,12 @@ def run(R):
         where = body.span_of(bb)
         R.check(-12159 <= lo and hi <= 12159, "C07-range", f"{site} push at {where}", f"pushed coefficient in [{lo},{hi}] within [-12159,12159]",
                 f"pushed coefficient may be in [{lo},{hi}], outside the canonical range [-12159,12159]", key=f"range|{push_sites.index(bb) if bb in push_sites else bb}")
-        nz = [p for p in pushes if p["bb"] == bb]
-        undec = [p for p in nz if p["negzero"] is None]
-        bad = [p for p in nz if p["negzero"] and not (p["acc"] and any(a == (1, 1) for a in p["acc"]))]
-        R.check(not undec and not bad, "C07-negzero", f"{site} push at {where}",
-                "negative zero (sign=1, magnitude 0) either cannot reach this push or has set the invalid-encoding flag",
-                ("could not decompose the pushed value into sign/high/low" if undec else
-                 "a coefficient with sign bit 1 and magnitude 0 can reach this push without the invalid-encoding flag being set (a second encoding of 0 is accepted)"),
-                key=f"negzero|{push_sites.index(bb) if bb in push_sites else bb}")
-    some_ok = bool(somes) and all(all(tuple(a) == (0, 0) for a in vals) for vals in somes)
-    R.check(some_ok, "C07-negzero", site + " -> Some", "`Some` is returned only with the invalid-encoding flag clear",
-            f"`Some` can be returned with the flag possibly set: {sorted(set(map(str, somes)))[:6]}", key="some-flag")
-    # (4) padding: data-dependent rejection tests after the last push
-    if push_sites:
-        last = push_sites[-1]
-        after = {b for b in set(dbranches) if body.dominates(last, b) and b != last}
-        R.check(len(after) >= 2, "C07-padding", site, f"{len(after)} data-dependent tests between the last coefficient and `Some` (bit-level and byte-level padding scans)",
-                f"only {len(after)} data-dependent test(s) follow the last coefficient: set padding bits would be accepted", key="padding")
+    # (3) negative zero: decided semantically by clause_negzero_partitions (known-bits domain). The earlier clause, which
+    # decomposed the pushed value into sign/high/low and looked for an "invalid" flag variable, depended on how the
+    # decoder is written (it fired on `if cond { abort = true }` in place of `abort |= cond`) and was withdrawn.
+    # (4) padding: decided semantically by clause_padding_partitions (known-bits domain); the earlier presence rule
+    # ("at least two data-dependent tests after the last coefficient") fired on behaviour-preserving rewrites of the
+    # scans with Iterator::any and was withdrawn
     # (7) reader reaches the end of the buffer
     R.check(cursors and max(c for c in cursors if c is not None) >= 0 if cursors and any(c is not None for c in cursors) else False, "C07-cursor", site,
             f"the cursor after the last terminator may equal the buffer's bit length (bound {max([c for c in cursors if c is not None], default=None)}): exactly-full encodings are readable",
@@ -320,6 +309,7 @@ def run(R):
     R.analysed["unsupported"] = S.unsupported[:10]
     R.floor("push observations", len(pushes), 2)
     clause_padding_partitions(R)
+    clause_negzero_partitions(R)
 
 
 def clause_padding_partitions(R):
@@ -334,6 +324,8 @@ def clause_padding_partitions(R):
     ctx.hooks["may_panic"] = lambda inst: False
     dec = S.find("encoding::decompress")
     ctx.hooks["unroll"] = lambda fr, h: 9 if fr.inst is dec else 0      # the bit-level padding scan has at most 7 trips: keep them apart
+    ctx.hooks["exact_anyall"] = True                                     # the same scan written with Iterator::any
+    ctx.hooks["exact_collect_max"] = 8
     u8, usz = S.ty("u8"), ctx.usize_ty()
     nrun = 0
 
@@ -384,4 +376,63 @@ def clause_padding_partitions(R):
             f"{len(bad)} partition(s) accept set padding bits, e.g. {bad[:2]}", key="padding-partitions", data={"bad": bad[:10]})
     R.floor("padding partitions run", nrun, 96)
     R.floor("clean controls reaching Some", controls, 16)
+    R.analysed.setdefault("unsupported", []).extend(S.unsupported[:5])
+
+
+def bytes_from_bits(S, st, bits, extra_unknown_bytes=0):
+    """bytes (most significant bit first) from a string over {'0','1','?'}; '?' is an unknown bit (known-bits domain)"""
+    ctx = S.ctx
+    u8 = S.ty("u8")
+    bits = bits + "?" * ((-len(bits)) % 8)
+    heads = {}
+    for k in range(len(bits) // 8):
+        chunk = bits[8 * k:8 * k + 8]
+        mask = int("".join("1" if c != "?" else "0" for c in chunk), 2)
+        val = int("".join("1" if c == "1" else "0" for c in chunk), 2)
+        lo, hi = val, val | (0xFF & ~mask)
+        b = ctx.mk_int(st, lo, hi, u8, taint=True)
+        if mask != 0xFF:
+            st.prov[b.vid] = ("kbits", (), (mask, val))
+        heads[k] = b
+    n = len(heads)
+    for k in range(extra_unknown_bytes):
+        heads[n + k] = ctx.mk_int(st, 0, 255, u8, taint=True)
+    return Sq(ctx.top_int(st, u8, taint=True), ctx.const_int(st, len(heads), ctx.usize_ty()), heads)
+
+
+def clause_negzero_partitions(R):
+    """negative zero, semantically: decompress(x, n) on every input that starts with a valid coefficient (1 + 128*h, any
+    h in 0..7, so that the next coefficient starts at every bit alignment) followed by the encoding of -0 (sign 1, low bits
+    0000000, terminator) — as the last coefficient (n = 2) and as a middle coefficient (n = 3), everything after it unknown.
+    `Some` must be unreachable. Control: with +0 in the same place `Some` is reachable."""
+    S = Session()
+    ctx = S.ctx
+    ctx.hooks["may_panic"] = lambda inst: False
+    ctx.hooks["exact_anyall"] = True
+    ctx.hooks["exact_collect_max"] = 8
+    dec = S.find("encoding::decompress")
+    ctx.hooks["unroll"] = lambda fr, h: 12 if fr.inst is dec else 0
+    usz = ctx.usize_ty()
+    bad, ctl, nrun = [], 0, 0
+    for n in (2, 3):
+        for h in range(8):
+            first = "0" + "0000001" + "0" * h + "1"
+            for sign, want_some in (("1", False), ("0", True)):
+                zero = sign + "0000000" + "1"
+                st = St()
+                x = S.cell(st, "x", bytes_from_bits(S, st, first + zero, extra_unknown_bytes=2 if n == 3 else 1))
+                outs = S.run(dec, [x, ctx.const_int(st, n, usz)], st)
+                nrun += 1
+                some = any(type(r) is En and 1 in r.vs for r, _ in outs)
+                if want_some:
+                    ctl += some
+                    if not some:
+                        bad.append(f"[n={n}, alignment {(9 + h) % 8}] a valid +0 at that place is rejected (control)")
+                elif some:
+                    bad.append(f"[n={n}, {'last' if n == 2 else 'middle'} coefficient, bit alignment {(9 + h) % 8}] -0 (sign 1, magnitude 0) is accepted")
+    R.check(not bad, "C07-negzero", "decompress: negative-zero partitions (known-bits domain)",
+            f"`Some` is unreachable whenever a coefficient is encoded as -0, at every bit alignment, last or not ({nrun} abstract runs, {ctl} +0 controls reach `Some`)",
+            f"{len(bad)} partition(s): {bad[:3]}", key="negzero-partitions", data={"bad": bad[:10]})
+    R.floor("negative-zero partitions run", nrun, 32)
+    R.floor("+0 controls reaching Some", ctl, 16)
     R.analysed.setdefault("unsupported", []).extend(S.unsupported[:5])
